@@ -1336,18 +1336,18 @@ func (s *Set) IsSubset(other Iterator) (bool, error) {
 }
 
 func (s *Set) Intersection(other Iterator) (Value, error) {
-	intersect := new(Set)
+	// Collect the elements of other, then select from s in its own order.
+	var y Set
 	var x Value
 	for other.Next(&x) {
-		found, err := s.Has(x)
-		if err != nil {
+		if err := y.Insert(x); err != nil {
 			return nil, err
 		}
-		if found {
-			err = intersect.Insert(x)
-			if err != nil {
-				return nil, err
-			}
+	}
+	intersect := new(Set)
+	for e := s.ht.head; e != nil; e = e.next {
+		if found, _ := y.Has(e.key); found {
+			intersect.Insert(e.key) // can't fail
 		}
 	}
 	return intersect, nil
